@@ -70,6 +70,9 @@ class fpv_assumed:
     def result(profile):
         return fpv_of(profile)
 
+    def ensures(profile, result):
+        return frozenset(result.keys()) == frozenset(profile.candidates)
+
 
 @contract("utils.py", "score_dict_to_ranking", props=(), assumed=True)
 class sdr_assumed:
@@ -79,6 +82,11 @@ class sdr_assumed:
 
     def result(score_dict):
         return ranking_of(score_dict)
+
+    def ensures(score_dict, result):
+        # the ranking partitions the keys into non-empty groups
+        return (nonempty_positions(result, len(result)) and count(result, len(result)) == len(score_dict)
+                and union_upto(result, len(result)) == frozenset(score_dict.keys()))
 
 
 @contract(STV_PY, "STV._run_step", props=("C02", "C01", "C10"), unfold=3)
@@ -102,6 +110,8 @@ class stv_run_step:
                 and distinct(profile.candidates, len(profile.candidates))
                 and 0 <= prev_state.round_number and prev_state.round_number < len(self.election_states)
                 and len(prev_state.remaining) >= 1
+                # the candidates still in the count are candidates of the initial profile (whose first-place tallies break elimination ties)
+                and prev_state.remaining[-1] <= frozenset(self._profile.candidates)
                 and implies(not (len([c for c in prev_state.scores if prev_state.scores[c] >= self.threshold]) > 0)
                             and not (len(profile.candidates) == self.m - count(
                                 cat_elected(self.election_states, prev_state.round_number + 1),
